@@ -28,6 +28,9 @@ fn main() {
                 continue;
             }
         }
+        if std::env::var("VH_PROGRESS").is_ok() {
+            eprintln!("case {case}");
+        }
         let mut rng = args.rng().fork(case ^ 0xC0_0000);
         let cfg = gen_cfg(&family, &mut rng, case);
         let seed = rng.u64();
@@ -37,6 +40,8 @@ fn main() {
     sh.finish();
 }
 
+const SWEEP_STEPS: u64 = 160;
+
 fn gen_cfg(family: &str, rng: &mut Rng, case: u64) -> EngCfg {
     let slots = *rng.pick(&[1usize, 1, 2, 2, 2, 4]);
     let policy = match rng.below(10) {
@@ -45,7 +50,7 @@ fn gen_cfg(family: &str, rng: &mut Rng, case: u64) -> EngCfg {
         _ => {
             // one or two pre-emptions at chosen steps
             let k = 1 + rng.usize_below(2);
-            Policy::PreemptAt { steps: (0..k).map(|_| rng.below(300)).collect(), to: (0..k).map(|_| rng.usize_below(8)).collect() }
+            Policy::PreemptAt { steps: (0..k).map(|_| rng.below(300)).collect(), to: (0..k).map(|_| rng.usize_below(8)).collect(), lowest_first: false }
         }
     };
     let mut cfg = EngCfg {
@@ -68,6 +73,7 @@ fn gen_cfg(family: &str, rng: &mut Rng, case: u64) -> EngCfg {
         index_wrap: false,
         replay_choices: None,
         record_choices: false,
+        sweep: false,
     };
     match family {
         "c01" => {
@@ -98,21 +104,47 @@ fn gen_cfg(family: &str, rng: &mut Rng, case: u64) -> EngCfg {
                 cfg.apps = 2 + rng.usize_below(2);
                 cfg.reqs_per_app = 2;
                 let k = 1 + rng.usize_below(2);
-                cfg.policy = Policy::PreemptAt { steps: (0..k).map(|j| (case / 4 + j as u64 * 37) % 260).collect(), to: (0..k).map(|j| ((case / 4 / 260) as usize + j) % 6).collect() };
+                cfg.policy = Policy::PreemptAt { steps: (0..k).map(|j| (case / 4 + j as u64 * 37) % 260).collect(), to: (0..k).map(|j| ((case / 4 / 260) as usize + j) % 6).collect(), lowest_first: rng.bool() };
             }
         }
         _ => {
             cfg.mode = Mode::Deadlines;
             cfg.hold_views_pct = 30;
+            cfg.public_api_pct = 30;
             cfg.deadlines = Some(DeadlineCfg {
                 timeout_us: *rng.pick(&[50u64, 200, 1000]),
-                retries: *rng.pick(&[0usize, 0, 1, 2, 3]),
+                retries: *rng.pick(&[0usize, 0, 1, 2, 3, usize::MAX]),
                 lose_pct: *rng.pick(&[0u64, 30, 60, 100]),
                 abandon_any_pct: *rng.pick(&[0u64, 0, 30, 60]),
                 early_delivery: rng.chance(1, 4),
             });
             cfg.slots = *rng.pick(&[1usize, 1, 2]);
-            cfg.apps = 2;
+            cfg.apps = 2 + rng.usize_below(2);
+            cfg.reqs_per_app = 2 + rng.usize_below(3);
+            if case % 2 == 0 {
+                // Systematic part: the bounded space "1 slot, competitor + victim, one or two
+                // requests each" with ONE forced switch at step i to actor t, everything else
+                // deterministic (lowest actor id first). i and t are enumerated by the case number,
+                // so the deadline (clock actor), the drop of the future (victim), TX and RX are each
+                // placed at every yield-point index of the send/receive path.
+                let k = case / 2;
+                cfg.slots = 1;
+                cfg.apps = 2;
+                cfg.reqs_per_app = 1 + (k / (SWEEP_STEPS * 5) % 2) as usize;
+                cfg.max_dgrams = 1;
+                cfg.wire_order = 0;
+                cfg.dup_pct = 0;
+                let variant = k / (SWEEP_STEPS * 5 * 2);
+                cfg.deadlines = Some(DeadlineCfg {
+                    timeout_us: 100,
+                    retries: (variant % 3) as usize,
+                    lose_pct: if variant / 3 % 2 == 0 { 100 } else { 0 },
+                    abandon_any_pct: if variant / 6 % 2 == 0 { 0 } else { 100 },
+                    early_delivery: variant / 12 % 2 == 1,
+                });
+                cfg.policy = Policy::PreemptAt { steps: vec![k % SWEEP_STEPS], to: vec![(k / SWEEP_STEPS % 5) as usize], lowest_first: true };
+                cfg.sweep = true;
+            }
         }
     }
     cfg
@@ -149,6 +181,21 @@ fn record(sh: &mut Shard, prop: &str, case: u64, cfg: &EngCfg, seed: u64, res: &
     if cfg.index_wrap {
         sh.count("cfg.index_wrap_family");
     }
+    if cfg.sweep {
+        sh.count("cfg.systematic_single_preemption_sweep");
+        if let Policy::PreemptAt { steps, to, .. } = &cfg.policy {
+            sh.distinct_aux(0x5EE9_0000_0000 | (steps[0] << 8) | to[0] as u64);
+        }
+    }
+    if let Some(d) = &cfg.deadlines {
+        sh.count(&format!("cfg.retries.{}", if d.retries == usize::MAX { "forever".to_string() } else { d.retries.to_string() }));
+        sh.count(&format!("cfg.lose_pct.{}", d.lose_pct));
+        if d.early_delivery {
+            sh.count("cfg.early_delivery");
+        }
+    }
+    sh.add("retransmissions", res.retransmissions);
+    sh.add("forever_policy_observed_8_periods", res.forever_observed);
     for (k, v) in &res.transitions {
         sh.add(&format!("transition.{k}"), *v);
     }
